@@ -521,11 +521,17 @@ def c18_literals(g, n):
         fz = r.randrange(20, 45)
         e = r.randrange(fz - 18 if fz > 18 else 0, fz + 3)
         lits.append(r.choice(["", "-"]) + ip + "." + g.digits(r.randrange(0, 4)) + "0" * fz + f"e{e}")
+    # the same, signed and well beyond 80 characters: `TokenStream::to_string` separates sign and number by a LINE BREAK then (D15)
+    for _ in range(8):
+        ip = "0" * r.randrange(50, 95) + str(r.randrange(1, 10 ** r.randrange(1, 15)))
+        fz = r.randrange(0, 30)
+        e = r.randrange(fz - 18 if fz > 18 else 0, fz + 3)
+        lits.insert(42, r.choice(["-", "-", "+"]) + ip + "." + g.digits(r.randrange(0, 4)) + "0" * fz + (f"e{e}" if e else ""))
     if len(lits) > n:
-        head = lits[:42]
-        rest = lits[42:]
+        head = lits[:50]
+        rest = lits[50:]
         r.shuffle(rest)
-        lits = head + rest[: max(0, n - 42)]
+        lits = head + rest[: max(0, n - 50)]
     while len(lits) < n:
         sign = r.choice(["", "", "-", "+"])
         if r.random() < 0.08:    # a zero with random fraction digits and exponent
@@ -577,8 +583,10 @@ fpdec = {{ path = "{REPO}" }}
     # white space or a comment in between (`Dec!(- 17.5)`); the value must be that of the unspaced text
     seps = {}
     for idx, l in enumerate(lits):
-        if l and l[0] in "+-" and len(l) > 1 and g.r.random() < 0.35:
-            seps[idx] = g.r.choice([" ", " ", "  ", " /* sign */ ", "\t"])
+        # a long literal after a separated sign makes `TokenStream::to_string` break the line between the two tokens (D15): long
+        # signed literals are always written with a separator
+        if l and l[0] in "+-" and len(l) > 1 and (g.r.random() < 0.35 or len(l) >= 60):
+            seps[idx] = g.r.choice([" ", " ", "  ", " /* sign */ ", "\t"])      # (no line break here: one item per source line)
 
     def write_prog(items):
         body = ["use fpdec::{Dec, Decimal};", "fn main() {"]
@@ -596,6 +604,8 @@ fpdec = {{ path = "{REPO}" }}
     r = subprocess.run(["cargo", "build", "--offline", "--message-format=json", "--target-dir", str(HARNESS / "target-lit")],
                        cwd=crate, capture_output=True, text=True, env=ENV)
     rejected = set()
+    (run.wd / "lit-first-run.json").write_text(r.stdout)
+    shutil.copy(crate / "src/main.rs", run.wd / "lit-first-main.rs")
     for line in r.stdout.split("\n"):
         if not line.startswith("{"):
             continue
@@ -634,6 +644,7 @@ fpdec = {{ path = "{REPO}" }}
         mreqs.append(f"heven macrofold {gen.G.hx(l)}")
         if l[0] in "+-":
             mreqs.append(f"heven macrofold {gen.G.hx(l[0] + ' ' + l[1:])}")
+            mreqs.append(f"heven macrofold {gen.G.hx(l[0] + chr(10) + l[1:])}")
     with open(run.wd / "mreq.txt", "w") as f:
         f.write("\n".join(mreqs) + "\n")
     mo = subprocess.run([str(LEAN / ".lake/build/bin/fpmodel"), "dev"], stdin=open(run.wd / "mreq.txt"), capture_output=True, text=True).stdout.split("\n")
@@ -647,7 +658,7 @@ fpdec = {{ path = "{REPO}" }}
             run.nontrivial.add(l)
         if mac != exp:
             run.violations.append(("impl∉spec", f"Dec!({l})", mac, f"from_str: {fs}", "dev"))
-        k = 2 if l[0] in "+-" else 1
+        k = 3 if l[0] in "+-" else 1
         for j in range(k):
             mm = mo[mi + j].split("\t")[0]
             mexp = mm if mm.startswith("ok") else "reject"
